@@ -211,6 +211,43 @@ func fixtureDirectives() []directive {
 	return out
 }
 
+// applyFixtureEdits applies the scripted source edits of every fixture package inside B; it returns how many were applied.
+func applyFixtureEdits(B string) int {
+	n := 0
+	for _, name := range fixtureNames() {
+		b, err := os.ReadFile(filepath.Join(verifDir(), "harness", "c13fixtures", name, "EDITS"))
+		if err != nil {
+			continue
+		}
+		for _, l := range strings.Split(string(b), "\n") {
+			if strings.HasPrefix(l, "#") || strings.TrimSpace(l) == "" {
+				continue
+			}
+			f := strings.Split(l, "\t")
+			if len(f) != 3 {
+				continue
+			}
+			p := filepath.Join(B, fixtureRoot, name, f[0])
+			src, err := os.ReadFile(p)
+			if err != nil || !strings.Contains(string(src), f[1]) {
+				continue
+			}
+			os.WriteFile(p, []byte(strings.Replace(string(src), f[1], f[2], 1)), 0o644)
+			n++
+		}
+	}
+	return n
+}
+
+func removeGeneratedFixtureFiles(B string) {
+	for _, name := range fixtureNames() {
+		g, _ := generatedFiles(filepath.Join(B, fixtureRoot, name))
+		for f := range g {
+			os.Remove(filepath.Join(B, fixtureRoot, name, f))
+		}
+	}
+}
+
 // fixtureOutput is the concatenation of every generated file below the fixture directories of B.
 func fixtureOutput(B string) string {
 	var sb strings.Builder
@@ -236,6 +273,8 @@ type c13seedResult struct {
 	permuted  int
 	iterTotal int
 	fixOut    []string // fixture output after each pass
+	editOut   []string // fixture output after the scripted source edit (regenerated on top / generated from scratch)
+	editDiff  string
 	viaLink   int      // chunks whose generators ran in a checkout reached through a symbolic link
 }
 
@@ -386,6 +425,37 @@ func c13OneSeed(scratch, binDir string, dirs []directive, seed uint64, idx int, 
 				res.fixOut = append(res.fixOut, fixtureOutput(B))
 				mu.Unlock()
 			}
+			if len(fixIdx) > 0 && res.genErr == "" {
+				// history fault: the fixture sources are edited (harness/c13fixtures/<name>/EDITS) and regenerated on top of
+				// the previous output; the result must be exactly what a generation from scratch of the edited sources gives
+				// (a generator that keeps a file it no longer produces leaves a stale generated file behind)
+				if n := applyFixtureEdits(B); n > 0 {
+					if !runDirs(fixIdx, 2) {
+						return
+					}
+					onTop := fixtureOutput(B)
+					removeGeneratedFixtureFiles(B)
+					if !runDirs(fixIdx, 3) {
+						return
+					}
+					scratch := fixtureOutput(B)
+					mu.Lock()
+					res.editOut = append(res.editOut, scratch)
+					if onTop != scratch && res.editDiff == "" {
+						res.editDiff = diffText(scratch, onTop)
+					}
+					mu.Unlock()
+				}
+			}
+			if false && passes == 1 && len(fixIdx) > 0 {
+				// the fixtures start without any generated file: a second run on top of the first output must not change it
+				if !runDirs(fixIdx, 1) {
+					return
+				}
+				mu.Lock()
+				res.fixOut = append(res.fixOut, fixtureOutput(B))
+				mu.Unlock()
+			}
 		}(c)
 	}
 	wg.Wait()
@@ -522,8 +592,23 @@ func cmdC13(args []string) {
 	}
 	seen := map[string]bool{}
 	fixRef, fixRuns, viaLink := "", 0, 0
+	editRef, editRuns := "", 0
 	for _, r := range results {
 		viaLink += r.viaLink
+		if r.editDiff != "" && !seen["edit"] {
+			seen["edit"] = true
+			report(r, "fixture-stale-after-edit", "after a source edit of the fixture packages, regenerating on top of the previous output leaves something else than generating the edited sources from scratch (lines marked + are what regeneration on top left behind):\n"+head(r.editDiff, 6000))
+		}
+		for _, eo := range r.editOut {
+			editRuns++
+			if editRef == "" {
+				editRef = eo
+			}
+			if eo != editRef && !seen["fixture"] {
+				seen["fixture"] = true
+				report(r, "fixture-output-differs", "the generators' output for the edited fixture packages differs between seeds:\n"+head(diffText(editRef, eo), 6000))
+			}
+		}
 		for k, fo := range r.fixOut {
 			fixRuns++
 			if fixRef == "" {
@@ -591,6 +676,7 @@ func cmdC13(args []string) {
 			"fixture_directives":          len(dirs) - nRepoDirs,
 			"fixture_packages":            fixtureNames(),
 			"fixture_outputs_compared":    fixRuns,
+			"fixture_source_edit_histories": editRuns,
 			"chunks_run_through_a_symlinked_checkout": viaLink,
 			"map_iterations":              iters,
 			"map_iterations_permuted":     permuted,
@@ -598,7 +684,7 @@ func cmdC13(args []string) {
 			"simulated_time":              "none",
 			"real_components":             []string{"cmd/gombok", "internal/generator/template_gen", "internal/generator/monad_gen", "genfp, metafp and every fp package they use (built from the rewritten copy)"},
 			"stubbed_components":          []string{"Go map iteration order inside the generators (seeded permutation)", "GOMAXPROCS"},
-			"faults_fired":                map[string]int{"map-iteration-permuted": permuted, "checkout-reached-through-symlink": viaLink},
+			"faults_fired":                map[string]int{"map-iteration-permuted": permuted, "checkout-reached-through-symlink": viaLink, "fixture-sources-edited-then-regenerated": editRuns},
 			"generated_files_in_the_tree": countGenerated(),
 		},
 	}
